@@ -327,15 +327,16 @@ example : ∃ s, (JoinWG.lts { n := 2, items := fun i => if i = 0 then [5] else 
 
 /-! ## Join with select: `deriveJoin(c0, c1, …)` -/
 
+/-- `JoinSelect.eitems c i` = `c.items i`, except for a channel argument that is nil at run time (no items) -/
 theorem joinsel_delivery (c : JoinSelect.Cfg) (s : JoinSelect.State) (hr : (JoinSelect.lts c).Reachable s) :
     ∀ i, i < c.n →
-      c.items i = gotOf s.got i ++ JoinSelect.held s.pc i ++ (s.ch i).buf ++ s.pend i :=
+      JoinSelect.eitems c i = gotOf s.got i ++ JoinSelect.held s.pc i ++ (s.ch i).buf ++ s.pend i :=
   (JoinSelect.inv_reachable c s hr).deliv
 
 theorem joinsel_exactly_once (c : JoinSelect.Cfg) (s : JoinSelect.State) (hr : (JoinSelect.lts c).Reachable s) :
-    (∀ i, i < c.n → ∃ rest, c.items i = gotOf s.got i ++ rest) ∧
+    (∀ i, i < c.n → ∃ rest, JoinSelect.eitems c i = gotOf s.got i ++ rest) ∧
     (∀ p, p ∈ s.got → p.1 < c.n) ∧
-    (JoinSelect.final s → ∀ i, i < c.n → gotOf s.got i = c.items i) := by
+    (JoinSelect.final s → ∀ i, i < c.n → gotOf s.got i = JoinSelect.eitems c i) := by
   have hi := JoinSelect.inv_reachable c s hr
   refine ⟨?_, JoinSelect.tags_reachable c s hr, ?_⟩
   · intro i hin
@@ -393,13 +394,22 @@ theorem joinsel_terminates (c : JoinSelect.Cfg) (tr : List JoinSelect.Label) (s 
     (by
       intro i hpc
       simp only [JoinSelect.init] at hpc
-      rcases JoinSelect.loopHead_cases c (fun _ => true) with h' | h' <;> rw [h'.1] at hpc <;> cases hpc) h
+      rcases JoinSelect.loopHead_cases c (fun i => !c.nilIn i) with h' | h' <;> rw [h'.1] at hpc <;> cases hpc) h
 
 example : ∃ s, (JoinSelect.lts { n := 2, items := fun i => if i = 0 then [1, 2] else [7], cap := fun _ => 1 }).run
       (JoinSelect.init { n := 2, items := fun i => if i = 0 then [1, 2] else [7], cap := fun _ => 1 })
       [.pSend 0, .pSend 1, .sRecv 1, .cTake, .pClose 1, .sRecv 0, .cTake, .sRecv 1, .sNil, .pSend 0,
        .pClose 0, .sRecv 0, .cTake, .sRecv 0, .sNil, .sClose, .cSeeClose] = some s ∧
     s.got = [(1, 7), (0, 1), (0, 2)] ∧ s.seen = true ∧ s.liveIn 0 = false := by
+  refine ⟨_, rfl, ?_, ?_, ?_⟩ <;> decide
+
+/-- a nil channel argument: `deriveJoin(c0, nil)` — the goroutine never selects on it and closes the output once c0 is
+closed and drained -/
+example : ∃ s, (JoinSelect.lts { n := 2, items := fun i => if i = 0 then [4] else [], cap := fun _ => 0,
+                                 nilIn := fun i => i == 1 }).run
+      (JoinSelect.init { n := 2, items := fun i => if i = 0 then [4] else [], cap := fun _ => 0, nilIn := fun i => i == 1 })
+      [.pSend 0, .cTake, .pClose 0, .sRecv 0, .sNil, .sClose, .cSeeClose] = some s ∧
+    s.got = [(0, 4)] ∧ s.seen = true ∧ s.pc = .done := by
   refine ⟨_, rfl, ?_, ?_, ?_⟩ <;> decide
 
 /-! ## Pipeline = (Fmap with a channel-valued function) feeding (Join of a channel of channels) -/
